@@ -149,6 +149,38 @@ fn run_one(run: &Run, shard: usize, l: &mut Local, scene: &Scene) {
     }
 }
 
+/// polygons on the quarter-pixel grid judged by the exact 4x4 model (M-RAST) instead of a reference
+/// fill: a pixel with no covered cell keeps its value. `scene` = [fill(path, solid, opts)].
+fn eval_exact(scene: &Scene) -> Result<u64, Violation> {
+    use crate::model::rast::{self, QOp, Rule};
+    let case = format!("exact | {}", scene);
+    let (path, o) = match scene.ops.first() {
+        Some(Op::Fill(p, _, o)) => (p, o),
+        _ => return Err(Violation::new("harness/no-fill", case, String::new())),
+    };
+    let q = |v: f32| (v * 4.0).round() as i32;
+    let qops: Vec<QOp> = path
+        .ops
+        .iter()
+        .filter_map(|op| match *op {
+            POp::M(x, y) => Some(QOp::M(q(x), q(y))),
+            POp::L(x, y) => Some(QOp::L(q(x), q(y))),
+            POp::Z => Some(QOp::Z),
+            _ => None,
+        })
+        .collect();
+    let (w, h) = (scene.w, scene.h);
+    let cov = rast::coverage(&rast::edges_from_ops(&qops), w as usize, h as usize, if path.evenodd { Rule::EvenOdd } else { Rule::NonZero });
+    let got = render(scene).map_err(|p| Violation::new("fill/panic", case.clone(), p))?;
+    let before = scene.dst.pixels(w, h);
+    for i in 0..got.len() {
+        if cov.kmax[i] == 0 && got[i] != before[i] {
+            return Err(Violation::new("exact/outside-changed/fill-zero-model-coverage", case, format!("pixel ({},{}) has no covered cell in the exact 4x4 model but changed {:#010x} -> {:#010x}; mode {:?}, aa {}", i as i32 % w, i as i32 / w, before[i], got[i], o.mode, o.aa)));
+        }
+    }
+    Ok(hash64(&got))
+}
+
 impl Check for C02 {
     fn id(&self) -> &'static str {
         "C02"
@@ -338,6 +370,77 @@ impl Check for C02 {
                 }
             });
         }
+        // dashed strokes: the shape is the dashes of the arc-length model (not of the library's own
+        // dasher): what lies in the gaps keeps its value, whatever the mode
+        {
+            let arrays: Vec<(Vec<f32>, f32)> = vec![(vec![8., 4., 6.], -3.), (vec![5.], -2.), (vec![5.], 2.), (vec![7., 5.], -4.), (vec![7., 5.], 0.), (vec![3., 6., 4.], 0.), (vec![3., 6., 4.], -16.), (vec![9.], -27.)];
+            let dmodes = [BlendMode::SrcOver, BlendMode::Clear, BlendMode::Src, BlendMode::DstIn];
+            run.bound("dashed strokes (arc-length model)", format!("{} (dash array, offset) pairs (odd and even lengths, negative offsets) x 3 polylines x {} modes x 2 widths on a white 40x40 surface: pixels more than 0.75 px outside every dash of the model keep their value", arrays.len(), dmodes.len()));
+            run.par(arrays.len() * dmodes.len(), |s, l| {
+                let (arr, off) = &arrays[s / dmodes.len()];
+                let mode = dmodes[s % dmodes.len()];
+                for pts in [vec![(5.3f32, 6.1f32), (33.9, 7.4), (18.8, 34.6)], vec![(4.9, 33.8), (34.2, 18.6)], vec![(6.8, 19.9), (20.1, 21.3), (33.1, 32.7), (19.7, 5.2)]] {
+                    for (wd, cap) in [(2.0f32, 0u8), (5.0, 1)] {
+                        for closed in [false, true] {
+                            let mut ops: Vec<POp> = pts.iter().enumerate().map(|(i, p)| if i == 0 { POp::M(p.0, p.1) } else { POp::L(p.0, p.1) }).collect();
+                            if closed {
+                                ops.push(POp::Z);
+                            }
+                            let st = StyleSpec { width: wd, cap, join: 1, miter: 4., dash: arr.clone(), offset: *off };
+                            let scene = Scene { w: 40, h: 40, dst: Dst::White, ops: vec![Op::Stroke(PathSpec::new(ops), st, SrcSpec::Solid(0x80002040), Opts { mode, alpha: 1.0, aa: true })] };
+                            l.states += 2;
+                            l.transitions += 1;
+                            l.traces += 1;
+                            l.evals += 1;
+                            match super::c09::dashes_leave_the_rest_alone(&scene) {
+                                Ok(Some(h)) => {
+                                    l.outcome(h);
+                                    l.nontrivial += 1;
+                                }
+                                Ok(None) => l.count("dashed_cases_left_undecided_by_the_model", 1),
+                                Err(v) => run.report(51_000 + s, v),
+                            }
+                        }
+                    }
+                }
+            });
+        }
+        // vertices thousands of pixels beyond the surface (8191 .. 32767 and more), next to shapes that
+        // lie on the surface: judged by the exact model, not by a reference fill
+        {
+            let fars = [8191, 8192, 9000, 16384, 30000, -8192, -20000];
+            let fmodes = [BlendMode::SrcOver, BlendMode::Clear, BlendMode::Src];
+            run.bound("far vertices (exact model)", format!("a quadrilateral with one vertex at x or y = {:?} plus a rectangle further along the same rows / columns x {} modes x 2 aa x 2 rules on 48x48, zero coverage decided by the exact 4x4 model", fars, fmodes.len()));
+            run.par(fars.len() * 2, |s, l| {
+                let far = fars[s / 2] as f32;
+                let vertical = s % 2 == 0;
+                let t = |x: f32, y: f32| if vertical { (x, y) } else { (y, x) };
+                let pts = [t(5.0, 5.0), t(15.0, 5.0), t(15.0, far), t(5.0, 30.0)];
+                let r0 = t(30.0, 10.0);
+                let r1 = t(36.0, 22.0);
+                let mut ops: Vec<POp> = pts.iter().enumerate().map(|(i, p)| if i == 0 { POp::M(p.0, p.1) } else { POp::L(p.0, p.1) }).collect();
+                ops.push(POp::Z);
+                ops.extend([POp::M(r0.0, r0.1), POp::L(r1.0, r0.1), POp::L(r1.0, r1.1), POp::L(r0.0, r1.1), POp::Z]);
+                for mode in fmodes {
+                    for aa in [true, false] {
+                        for eo in [false, true] {
+                            let scene = Scene { w: 48, h: 48, dst: Dst::Distinct, ops: vec![Op::Fill(PathSpec { evenodd: eo, ops: ops.clone() }, SrcSpec::Solid(0xff204080), Opts { mode, alpha: 1.0, aa })] };
+                            l.states += 2;
+                            l.transitions += 1;
+                            l.traces += 1;
+                            l.evals += 1;
+                            match eval_exact(&scene) {
+                                Ok(h) => {
+                                    l.outcome(h);
+                                    l.nontrivial += 1;
+                                }
+                                Err(v) => run.report(50_000 + s, v),
+                            }
+                        }
+                    }
+                }
+            });
+        }
         // long strips (spans and masks beyond 256 / 1024 / 2048 / 8192 pixels)
         let hmodes = [BlendMode::SrcOver, BlendMode::Src, BlendMode::Clear, BlendMode::DstIn];
         run.bound("wide-tall", format!("the long-strip scenes shared with C03 (300x2, 2x300, 8200x2, 2x8200; far-end draws, full-length sliver fill, full-length mask) x {} modes", hmodes.len()));
@@ -350,6 +453,12 @@ impl Check for C02 {
     }
 
     fn replay(&self, case: &str) -> Result<Option<Violation>, String> {
+        if let Some(rest) = case.strip_prefix("dashed | ") {
+            return Ok(super::c09::dashes_leave_the_rest_alone(&parse_scene(rest)?).err());
+        }
+        if let Some(rest) = case.strip_prefix("exact | ") {
+            return Ok(eval_exact(&parse_scene(rest)?).err());
+        }
         let scene = parse_scene(case)?;
         if let Err(v) = run_scene("C02", &scene, owns, &classify) {
             return Ok(Some(v));
